@@ -72,6 +72,11 @@ Theorem C17_converged_reason : forall (f df : R -> R) x_tol r_tol n x0 b0 b1 v i
                 (Rabs dx < x_tol \/ Rabs F < r_tol \/ v = c_root p \/ v = c_xl p)).
 Proof. exact converged_reason. Qed.
 
+(* with x_tol <= 0 (the way the J2 update calls the solver) a bracketed converged run ends on |f| < r_tol or an exact root *)
+Theorem C17_converged_small_residual : forall (f df : R -> R) x_tol r_tol n x0 b0 b1 v it F dx, x_tol <= 0 -> f b0 * f b1 < 0 ->
+  rtsafe f df x0 b0 b1 n x_tol r_tol = Res (Some v) true it F dx Converged -> Rabs (f v) < r_tol \/ f v = 0.
+Proof. exact converged_small_residual. Qed.
+
 (* NOT PROVED (false of the faithful model): "f continuous with a sign change => the result is not NaN and meets the tolerance".
    Refuted twice in exact arithmetic (the generic model run over reduced rationals), default settings, f = x^3 on [-1,1]:
    (1) guess 0.3: Newton converges linearly at a triple root, the safeguard interleaves bisections, 50 iterations do not reach
